@@ -440,6 +440,9 @@ func countValues(rec int, wide bool) []cval {
 
 var subst8 = []byte{0x00, 0x01, 0x02, 0x7f, 0x80, 0xfd, 0xfe, 0xff}
 
+// thorough tier: 16 values
+var subst16 = []byte{0x00, 0x01, 0x02, 0x03, 0x10, 0x20, 0x40, 0x4c, 0x55, 0x7f, 0x80, 0xaa, 0xfc, 0xfd, 0xfe, 0xff}
+
 // ---------------------------------------------------------------------------
 // contexts
 
@@ -453,6 +456,7 @@ type ctxt struct {
 func msg(t *tmpl) Event { return Event{T: "msg", Cmd: t.cmd, Pl: hex.EncodeToString(t.pl)} }
 
 type caseGen struct {
+	subst []byte
 	w     *world
 	ts    []*tmpl
 	byN   map[string]*tmpl
@@ -536,7 +540,7 @@ func (g *caseGen) families(t *tmpl, cx *ctxt, which string, wide bool) {
 	}
 	if has('s') {
 		for i := range t.pl {
-			for _, v := range subst8 {
+			for _, v := range g.subst {
 				if t.pl[i] == v {
 					continue
 				}
